@@ -367,12 +367,22 @@ func (s *Speller) Class(e *Expr) string {
 		b.WriteByte('-')
 	}
 	first := hyphen < 0
-	for _, it := range order {
+	for oi, it := range order {
 		switch it.kind {
 		case 0:
 			if e.Chars[it.idx] == '-' {
-				s.feat("escaped_hyphen")
-				b.WriteString(Pick(s.t, []string{`\x2d`, `\055`, `\u002d`}, "hyphenesc"))
+				// a hyphen that is not the first member stands for itself where the grammar cannot
+				// read it as the range operator: behind a range or a class escape, in front of a
+				// class escape, as the last member ( [a-c-e] [\pL-z] [a-\pL] [ab-] ); elsewhere
+				// (and half of the time anyway) it is written as an escape
+				rawOK := !s.Boot && oi > 0 && (order[oi-1].kind != 0 || oi == len(order)-1 || order[oi+1].kind == 2)
+				if rawOK && s.u(2, "rawhyphen") == 0 {
+					s.feat("raw_hyphen_member")
+					b.WriteByte('-')
+				} else {
+					s.feat("escaped_hyphen")
+					b.WriteString(Pick(s.t, []string{`\x2d`, `\055`, `\u002d`}, "hyphenesc"))
+				}
 			} else {
 				b.WriteString(s.classRune(e.Chars[it.idx], first))
 			}
